@@ -591,3 +591,13 @@ B("G1.contacts_merge", ["C05", "C03", "C10", "C04"], CONT, "bounded_contacts_mer
 B("G2.endorse_rects_partition", ["C05", "C04", "C03"], CONT, "bounded_endorse_rects_partition", "Contacts::endorse_rects / endorse_rect / span",
   "every group is either replaced by its rect (span = the group's cells) or kept unchanged and in order: a partition",
   "all 31 non-empty selections of 5 groups (a rect, an open outline, five lines, a text group, a single line), both orders")
+
+V("T2.celltext_can_merge", ["C04"], "celltext", "can_merge", "CellText::can_merge",
+  "for every content and all valid cells: true <=> same row and one text starts exactly where the other's columns end",
+  "buffer/fragment_buffer/fragment/text.rs")
+V("T3.celltext_merge_unbounded", ["C04", "C03"], "celltext", "merge", "CellText::merge",
+  "for every content: Some <=> can_merge; the merged text starts at the first text's cell and its content is first ++ second "
+  "(nothing dropped, duplicated or reordered)", "buffer/fragment_buffer/fragment/text.rs")
+V("G2.endorse_rects_count", ["C05", "C04", "C03"], "endorse_rects", "endorse_rects", "Contacts::endorse_rects",
+  "for any number of groups: accepted.len() + rejects.len() == contacts.len() (every group is either endorsed or kept)",
+  "buffer/cell_buffer/contacts.rs")
